@@ -218,6 +218,31 @@ func runC19(r *Run, verifDir string) {
 			r.Bad("C19.W2", key, c.core.Pos(), "the core handler is not given the continuation's own context and message: what the last middleware passed on is ignored")
 		case !returnsUnchanged(c.stage) || !returnsUnchanged(c.core):
 			r.Bad("C19.W2", key, c.k.Pos(), "the continuation does not return its callee's results unchanged")
+		case func() bool {
+			// the core works on the message it is given, not on a copy of the request saved in the context before
+			// the chain started
+			sc := c.core.Call.StaticCallee()
+			if sc == nil || sc.Blocks == nil {
+				return false
+			}
+			found := false
+			allInstrs(sc, func(in ssa.Instruction) {
+				call, ok := in.(*ssa.Call)
+				if !ok || call.Call.StaticCallee() == nil || !strings.HasPrefix(idOf(call.Call.StaticCallee()).pkg, modPath) {
+					return
+				}
+				res := call.Call.Signature().Results()
+				takesCtxOnly := len(call.Call.Args) == 1 && typeName(call.Call.Args[0].Type()) == "Context"
+				for i := 0; i < res.Len(); i++ {
+					tn := typeName(res.At(i).Type())
+					if takesCtxOnly && (tn == "RequestHeader" || tn == "RequestMessage" || tn == "RequestBatchItem") {
+						found = true
+					}
+				}
+			})
+			return found
+		}():
+			r.Bad("C19.W2", key, c.core.Pos(), "the core handler reads (parts of) the request from a copy saved in the context before the chain started instead of from the message it is given: a message substituted or edited by a middleware is paired with the original header")
 		default:
 			r.OK("C19.W2", key, c.stage.Pos(), "stage and core receive (ctx, msg) of this continuation; results are returned as they are")
 		}
@@ -426,6 +451,29 @@ func c19Registration(r *Run) {
 						r.Bad("C19.W3", key+"/order", st.Pos(), "registration does not append the new middlewares after the existing ones in argument order")
 						return
 					}
+				}
+				// the chain owns its backing array: a caller's slice (a parameter or a captured parameter of the
+				// registration function) is never stored as the chain itself
+				direct := st.Val
+				if ct, ok := direct.(*ssa.ChangeType); ok {
+					direct = ct.X
+				}
+				callerSlice := false
+				if _, ok := direct.(*ssa.Parameter); ok {
+					callerSlice = true
+				}
+				if u, ok := direct.(*ssa.UnOp); ok {
+					if _, ok := u.X.(*ssa.FreeVar); ok {
+						callerSlice = true
+					}
+				}
+				if fv, ok := direct.(*ssa.FreeVar); ok {
+					_ = fv
+					callerSlice = true
+				}
+				if callerSlice {
+					r.Bad("C19.W4", key, st.Pos(), "%s stores the caller's slice as the middleware chain %s without copying it: the chain shares its backing array with the caller (and with other clients built from the same base slice), so a later append or write changes which middlewares a live chain runs", fnKey(fn), fname(fld))
+					return
 				}
 				r.OK("C19.W4", key, st.Pos(), "chain set by constructor/clone %s", fnKey(fn))
 			})
